@@ -1,3 +1,4 @@
+import PedalProofs.MergeIRLemmas
 import PedalProofs.ResolverLemmas
 import PedalProofs.SortLemmas
 /-
